@@ -1,12 +1,479 @@
 package main
 
+import (
+	"fmt"
+	"go/token"
+	"go/types"
+
+	"golang.org/x/tools/go/ssa"
+)
+
 func init() {
-	register("C02", "under construction", checkC02)
+	register("C02", "Decided: (a) every field of every option struct a client command accepts is read while the command is encoded (no argument can be silently dropped), fields tied by their own comment to an extension the server never advertises excepted; (b) option keywords round-trip: for the status, list-select, list-return, search-return, fetch-item and search-key tables extracted from the client, the token written for a field is mapped by the paired server switch back to that very field; (c) every command name the client can send is dispatched by the server or documented as needing an unadvertised extension; (d) no parse failure is swallowed in the server's parsers (a nil error is never returned on a path where a Decoder.Expect* failed or an error is known non-nil); (e, f) search keys are appended to their own field and scalar keys folded only through And (shared with C19.d); (g) every plain operand handed to the backend is the value decoded from the command line, operands of equal type in wire order, and the number kind is the one of the UID prefix. Not decided: that a string survives quoting/literal/UTF-7 unchanged (value-level), equality of arbitrary search trees, composite item names (BODY.PEEK[…], +FLAGS.SILENT) beyond field coverage.", checkC02)
 }
 
 func checkC02(c *Ctx) {
 	c.rule("C02.a", "every field of every option struct accepted by a client command is read while encoding it", 60)
 	ruleArgFieldCoverage(c, "C02.a")
+	c.rule("C02.b", "option keywords round-trip: the token the client writes for a field is decoded by the server into the same field", 25)
+	ruleKeywordRoundTrip(c, "C02.b", "imapclient", "imapserver", 5)
+	c.rule("C02.c", "every command the client can send is dispatched by the server (or needs an extension the server never advertises)", 40)
+	ruleCommandTable(c, "C02.c")
+	c.rule("C02.g", "operands handed to the backend are the decoded ones, in wire order, with the number kind of the UID prefix", 30)
+	ruleArgumentPlumbing(c, "C02.g")
+	c.rule("C02.e", "search keys: same-field append; scalar keys only through And; no whole-criteria overwrite", 20)
+	ruleSameFieldAppend(c, "C02.e")
+	ruleScalarOnlyViaAnd(c, "C02.e")
 	c.rule("C02.d", "no parse failure is swallowed in the server's command parsers", 100)
 	ruleNoSwallowedError(c, "C02.d", "imapserver", "internal")
+}
+
+// ruleCommandTable (C02.c): every command name the client can put on the wire
+// is dispatched by the server, unless the client method documents that it
+// needs an extension this server never advertises.
+func ruleCommandTable(c *Ctx, rule string) {
+	p := c.P
+	begin := p.Func("imapclient", "Client", "beginCommand")
+	if begin == nil {
+		c.unresolvedRoot("(*Client).beginCommand")
+		return
+	}
+	tbl, _, _ := dispatchTable(c)
+	labels := map[string]bool{}
+	for _, dc := range tbl {
+		for _, l := range dc.labels {
+			labels[l] = true
+		}
+	}
+	var namesOf func(v ssa.Value, seen map[ssa.Value]bool) ([]string, bool)
+	namesOf = func(v ssa.Value, seen map[ssa.Value]bool) ([]string, bool) {
+		if seen[v] {
+			return nil, true
+		}
+		seen[v] = true
+		if s, ok := constString(v); ok {
+			return []string{s}, true
+		}
+		switch x := v.(type) {
+		case *ssa.Phi:
+			var out []string
+			for _, e := range x.Edges {
+				n, ok := namesOf(e, seen)
+				if !ok {
+					return nil, false
+				}
+				out = append(out, n...)
+			}
+			return out, true
+		case *ssa.Call:
+			if cal := staticCallee(x); cal != nil && cal.Name() == "uidCmdName" && len(x.Call.Args) >= 1 {
+				n, ok := namesOf(x.Call.Args[0], seen)
+				if !ok {
+					return nil, false
+				}
+				var out []string
+				for _, s := range n {
+					out = append(out, s, "UID "+s)
+				}
+				return out, true
+			}
+		}
+		return nil, false
+	}
+	g := buildModGraph(p, p.VTA(), nil)
+	callers := map[*ssa.Function][]*ssa.Function{}
+	for f, m := range g.succ {
+		for cal := range m {
+			callers[cal] = append(callers[cal], f)
+		}
+	}
+	docOf := func(fn *ssa.Function) string {
+		fd, _ := p.Decl(fn)
+		if fd == nil || fd.Doc == nil {
+			return ""
+		}
+		return fd.Doc.Text()
+	}
+	for _, fn := range p.SrcFuncs("imapclient") {
+		allInstrs(fn, func(i ssa.Instruction) {
+			call, ok := i.(*ssa.Call)
+			if !ok || staticCallee(call) != begin {
+				return
+			}
+			names, ok := namesOf(call.Call.Args[1], map[ssa.Value]bool{})
+			if !ok {
+				c.undecided(rule, fnKey(fn)+":command name", call.Pos(), "the command name passed to beginCommand is not a constant")
+				return
+			}
+			// documentation of the method (or of its direct callers for unexported helpers)
+			docs := []string{docOf(fn)}
+			root := fn
+			for root.Parent() != nil {
+				root = root.Parent()
+			}
+			docs = append(docs, docOf(root))
+			for _, cl := range callers[root] {
+				docs = append(docs, docOf(cl))
+			}
+			exempt, caps := false, ""
+			for _, d := range docs {
+				if e, cp := docRequiresUnadvertisable(p, d); e {
+					exempt, caps = true, cp
+				}
+			}
+			for _, n := range names {
+				key := "command " + n
+				switch {
+				case labels[n]:
+					c.ok(rule, key, call.Pos(), "dispatched by readCommand")
+				case exempt:
+					c.okTrivial(rule, key, call.Pos(), "not dispatched, but the client method documents that it requires "+caps+", which this server never advertises")
+				default:
+					c.fail(rule, key, call.Pos(), "the client can send "+n+" but the server has no case for it: a command of the advertised feature set is answered BAD")
+				}
+			}
+		})
+	}
+}
+
+// decodeSource describes where a handler's session-call operand comes from.
+type decodeSource struct {
+	call ssa.CallInstruction // the Decoder call that filled it
+	desc string
+}
+
+// provenance follows v back to the Decoder call that produced it: a load of a
+// local whose address was handed to a Decoder/decoding function, or a result of
+// a read* helper of the package whose own return value has such a provenance.
+func provenance(p *Program, v ssa.Value, depth int) (decodeSource, bool) {
+	if depth > 8 {
+		return decodeSource{}, false
+	}
+	switch x := v.(type) {
+	case *ssa.UnOp:
+		if x.Op != token.MUL {
+			break
+		}
+		cell, ok := x.X.(*ssa.Alloc)
+		if !ok {
+			break
+		}
+		for _, ref := range *cell.Referrers() {
+			call, ok := ref.(ssa.CallInstruction)
+			if !ok {
+				continue
+			}
+			for _, a := range call.Common().Args {
+				if a == ssa.Value(cell) && (isDecoderMethodCall(call) || decodesInto(p, call)) {
+					return decodeSource{call, callKey(call)}, true
+				}
+			}
+		}
+		// a local assigned from a helper's result
+		for _, ref := range *cell.Referrers() {
+			if st, ok := ref.(*ssa.Store); ok && st.Addr == ssa.Value(cell) {
+				if s, ok := provenance(p, st.Val, depth+1); ok {
+					return s, true
+				}
+			}
+		}
+	case *ssa.Extract:
+		if call, ok := x.Tuple.(*ssa.Call); ok {
+			if cal := staticCallee(call); cal != nil && inModule(cal) && cal.Blocks != nil {
+				// the helper's idx-th result on its success return
+				for _, ret := range returnsOf(cal) {
+					rv := unspill(ret.Results[x.Index])
+					if isNilConst(rv) {
+						continue
+					}
+					if k, isConst := rv.(*ssa.Const); isConst && k.Value != nil && k.Value.String() == `""` {
+						continue
+					}
+					if s, ok := provenance(p, rv, depth+1); ok {
+						return decodeSource{call, callKey(call) + "→" + s.desc}, true
+					}
+				}
+			} else if !call.Call.IsInvoke() {
+				// a library transformer returning (value, error): its operands
+				for _, a := range call.Call.Args {
+					if s, ok := provenance(p, a, depth+1); ok {
+						return s, true
+					}
+				}
+			}
+		}
+	case *ssa.Call:
+		if cal := staticCallee(x); cal != nil && inModule(cal) && cal.Blocks != nil {
+			for _, ret := range returnsOf(cal) {
+				if s, ok := provenance(p, unspill(ret.Results[0]), depth+1); ok {
+					return decodeSource{x, callKey(x) + "→" + s.desc}, true
+				}
+			}
+		} else {
+			// append(…) and library transformers (ToUpper, UTF-7 decoding…): any operand with a provenance
+			for _, a := range x.Call.Args {
+				if s, ok := provenance(p, a, depth+1); ok {
+					return s, true
+				}
+			}
+			if x.Call.IsInvoke() {
+				return decodeSource{}, false
+			}
+		}
+	case *ssa.Parameter:
+		fn := x.Parent()
+		if fn.Parent() != nil {
+			return decodeSource{nil, "parameter of a callback (" + fnKey(fn) + ")"}, true
+		}
+		idx := -1
+		for i, q := range fn.Params {
+			if q == x {
+				idx = i
+			}
+		}
+		var found *decodeSource
+		for _, call := range callSitesOf(p, fn) {
+			if idx >= len(call.Common().Args) {
+				continue
+			}
+			a := call.Common().Args[idx]
+			if isNilConst(a) {
+				continue
+			}
+			s, ok := provenance(p, a, depth+1)
+			if !ok {
+				return decodeSource{}, false
+			}
+			found = &s
+		}
+		if found != nil {
+			return decodeSource{found.call, "caller: " + found.desc}, true
+		}
+	case *ssa.Alloc:
+		// address of a local handed on (e.g. &uidSet): where was it filled?
+		for _, ref := range *x.Referrers() {
+			call, ok := ref.(ssa.CallInstruction)
+			if !ok {
+				continue
+			}
+			if isDecoderMethodCall(call) || decodesInto(p, call) {
+				return decodeSource{call, callKey(call)}, true
+			}
+		}
+	case *ssa.Phi:
+		for _, e := range x.Edges {
+			if s, ok := provenance(p, e, depth+1); ok {
+				return s, true
+			}
+		}
+	case *ssa.MakeInterface:
+		return provenance(p, x.X, depth)
+	case *ssa.ChangeType:
+		return provenance(p, x.X, depth)
+	case *ssa.Slice:
+		if arr, ok := x.X.(*ssa.Alloc); ok {
+			// a slice literal: its elements
+			for _, ref := range *arr.Referrers() {
+				if ia, ok := ref.(*ssa.IndexAddr); ok {
+					for _, r2 := range *ia.Referrers() {
+						if st, ok := r2.(*ssa.Store); ok && st.Addr == ssa.Value(ia) {
+							if s, ok := provenance(p, st.Val, depth+1); ok {
+								return s, true
+							}
+						}
+					}
+				}
+			}
+		}
+		return provenance(p, x.X, depth)
+	}
+	return decodeSource{}, false
+}
+
+// decodesInto: a call of a module function that itself takes a *Decoder (a
+// read helper filling an out-parameter).
+func decodesInto(p *Program, call ssa.CallInstruction) bool {
+	cal := staticCallee(call)
+	if cal == nil || !inModule(cal) {
+		return false
+	}
+	for _, prm := range cal.Params {
+		if pt, ok := prm.Type().(*types.Pointer); ok {
+			if n, ok := pt.Elem().(*types.Named); ok && n.Obj().Name() == "Decoder" {
+				return true
+			}
+		}
+	}
+	return false
+}
+
+// ruleArgumentPlumbing (C02.g).
+func ruleArgumentPlumbing(c *Ctx, rule string) {
+	p := c.P
+	ifaces := sessionIfaces(p)
+	isPlain := func(t types.Type) bool {
+		if b, ok := t.Underlying().(*types.Basic); ok && b.Info()&types.IsString != 0 {
+			return true
+		}
+		if n, ok := t.(*types.Named); ok {
+			switch n.Obj().Name() {
+			case "NumSet", "UIDSet", "SeqSet":
+				return true
+			}
+		}
+		if pt, ok := t.(*types.Pointer); ok {
+			if n, ok := pt.Elem().(*types.Named); ok && (n.Obj().Name() == "UIDSet") {
+				return true
+			}
+		}
+		if sl, ok := t.(*types.Slice); ok {
+			if b, ok := sl.Elem().Underlying().(*types.Basic); ok && b.Info()&types.IsString != 0 {
+				return true
+			}
+		}
+		return false
+	}
+	nsites := 0
+	for _, fn := range p.SrcFuncs("imapserver") {
+		allInstrs(fn, func(i ssa.Instruction) {
+			call, ok := i.(ssa.CallInstruction)
+			if !ok {
+				return
+			}
+			m, ok := isSessionInvoke(ifaces, call)
+			if !ok {
+				return
+			}
+			sig := call.Common().Method.Type().(*types.Signature)
+			var prev *decodeSource
+			var prevType types.Type
+			for k, arg := range call.Common().Args {
+				pt := sig.Params().At(k).Type()
+				key := fmt.Sprintf("%s→%s:%s", fnKey(fn), m, sig.Params().At(k).Name())
+				if n, ok := pt.(*types.Named); ok && n.Obj().Name() == "NumKind" {
+					// must be the handler's own NumKind parameter
+					isParam := false
+					for _, prm := range fn.Params {
+						if paramOf(arg) == prm || arg == ssa.Value(prm) {
+							isParam = true
+						}
+					}
+					nsites++
+					c.check(isParam, rule, key, i.Pos(), "the number kind derived from the UID prefix is passed through", "the session receives a number kind that is not the one derived from the command's UID prefix: sequence numbers are interpreted as UIDs or vice versa")
+					continue
+				}
+				if !isPlain(pt) {
+					continue
+				}
+				nsites++
+				if isNilConst(arg) {
+					// nil UID set for plain EXPUNGE is the protocol's meaning
+					c.okTrivial(rule, key, i.Pos(), "nil: the command has no such operand")
+					continue
+				}
+				if _, isConst := arg.(*ssa.Const); isConst {
+					c.fail(rule, key, i.Pos(), "a constant is passed to the backend instead of the operand the client sent")
+					continue
+				}
+				src, ok := provenance(p, arg, 0)
+				if !ok {
+					c.fail(rule, key, i.Pos(), "the operand handed to the backend does not come from a value decoded from the command line")
+					continue
+				}
+				// order: two operands of the same type must be decoded in parameter order
+				if prev != nil && types.Identical(prevType, pt) {
+					inOrder := prev.call == nil || src.call == nil || (prev.call != src.call && prev.call.Parent() == src.call.Parent() && precedes(prev.call.(ssa.Instruction), src.call.(ssa.Instruction))) || prev.call.Parent() != src.call.Parent()
+					if prev.call == nil && src.call == nil {
+						// both are parameters of one callback: they must be passed in the callback's own parameter order
+						pa, okA := call.Common().Args[k-1].(*ssa.Parameter)
+						pb, okB := arg.(*ssa.Parameter)
+						if okA && okB {
+							ia, ib := -1, -1
+							for qi, q := range pa.Parent().Params {
+								if q == pa {
+									ia = qi
+								}
+								if q == pb {
+									ib = qi
+								}
+							}
+							inOrder = ia < ib
+						}
+					}
+					c.check(inOrder, rule, key+":order", i.Pos(),
+						"decoded after the previous operand of the same type, as on the wire", "two operands of the same type reach the backend in the opposite order to the one they were decoded in")
+				}
+				c.ok(rule, key, i.Pos(), "decoded by "+src.desc)
+				s := src
+				prev, prevType = &s, pt
+			}
+		})
+	}
+	if nsites == 0 {
+		c.unresolvedRoot("plain operands of session calls")
+	}
+	// readCommand: UID prefix ⇒ NumKindUID
+	rc := p.Func("imapserver", "Conn", "readCommand")
+	if rc == nil {
+		return
+	}
+	var kindPhi *ssa.Phi
+	allInstrs(rc, func(i ssa.Instruction) {
+		if ph, ok := i.(*ssa.Phi); ok {
+			if n, ok := ph.Type().(*types.Named); ok && n.Obj().Name() == "NumKind" {
+				kindPhi = ph
+			}
+		}
+	})
+	if kindPhi == nil {
+		c.unresolvedRoot("number-kind variable of readCommand")
+		return
+	}
+	okPhi := len(kindPhi.Edges) == 2
+	gf := mustFlow(rc, facts{}, nil, func(f facts, b *ssa.BasicBlock, s int) facts {
+		for _, a := range edgeAtoms(b, s) {
+			if a.Const != nil && a.Op == token.EQL {
+				if str, ok := constString(a.Const); ok && str == "UID" {
+					return f.with("uid-prefix")
+				}
+			}
+		}
+		return f
+	})
+	for ei, e := range kindPhi.Edges {
+		k, ok := constInt(e)
+		if !ok {
+			okPhi = false
+			continue
+		}
+		fs, _ := gf.atEnd(kindPhi.Block().Preds[ei])
+		// imapwire.NumKindUID is the larger constant
+		other, _ := constInt(kindPhi.Edges[1-ei])
+		if k > other && !fs.has("uid-prefix") {
+			okPhi = false
+		}
+		if k < other && fs.has("uid-prefix") {
+			okPhi = false
+		}
+	}
+	c.check(okPhi, rule, "readCommand: number kind follows the UID prefix", kindPhi.Pos(), "NumKindUID exactly on the path where the command name is UID", "the number kind handed to the handlers is not tied to the UID prefix")
+}
+
+var callSiteCache map[*ssa.Function][]ssa.CallInstruction
+
+// callSitesOf lists the static call sites of a package-level function.
+func callSitesOf(p *Program, fn *ssa.Function) []ssa.CallInstruction {
+	if callSiteCache == nil {
+		callSiteCache = map[*ssa.Function][]ssa.CallInstruction{}
+		for _, f := range p.SrcFuncs() {
+			allInstrs(f, func(i ssa.Instruction) {
+				if call, ok := i.(ssa.CallInstruction); ok {
+					if cal := staticCallee(call); cal != nil {
+						callSiteCache[cal] = append(callSiteCache[cal], call)
+					}
+				}
+			})
+		}
+	}
+	return callSiteCache[fn]
 }
